@@ -240,6 +240,10 @@ func famC15(g *Gen, o *Out, n int, thorough bool) {
 			sel, selName = g.selectorFor(0)
 			dup, skew = c >= 3, false
 		}
+		fixedSkew := c >= 6 && c < 10 // and four skewed DAGs under a depth limit, link-visit-once off and on
+		if fixedSkew {
+			skew = true
+		}
 		if skew {
 			var chain int
 			d, chain = g.buildSkewDag()
@@ -248,6 +252,9 @@ func famC15(g *Gen, o *Out, n int, thorough bool) {
 			sel = ssb.ExploreRecursive(selector.RecursionLimitDepth(dep), ssb.ExploreAll(ssb.ExploreRecursiveEdge())).Node()
 			selName = fmt.Sprintf("depth%d", dep)
 			dup = g.pick(2) == 0
+			if fixedSkew {
+				dup = c%2 == 0
+			}
 		}
 		dp := []uint64{0, 0, 5, 64, 4096, 4097, 5000, 10000, 70000}[g.pick(9)]
 		ip := []uint64{0, 0, 9, 4097, 9000}[g.pick(5)]
